@@ -93,3 +93,10 @@ impl State {
         }
     }
 }
+
+#[cfg(feature = "verif-hooks")]
+impl State {
+    pub(super) fn verif_dump(&self) -> String {
+        format!("Alloc dropped={}", self.is_dropped as u8)
+    }
+}
